@@ -218,6 +218,8 @@ pub enum Expr {
     Bin(BinOp, Box<Expr>, Box<Expr>),
     /// stage S4: call of a user FUNCTION
     Call(String, Vec<Arg>),
+    /// stage S5: `instance.member`
+    Fld(String, String),
 }
 
 /// One call argument: optional formal name, `=>` (true) or `:=`/positional (false), expression.
@@ -285,6 +287,8 @@ pub enum Stmt {
     /// stage S4: `RETURN expr;` (in a FUNCTION) and a call as a statement
     ReturnVal(Expr),
     ExprStmt(Expr),
+    /// stage S5: `instance(args);`
+    FbCall(String, Vec<Arg>),
 }
 
 #[derive(Clone, Debug)]
@@ -297,8 +301,19 @@ pub struct VarDecl {
 }
 
 #[derive(Clone, Debug)]
+pub struct FbDef {
+    pub name: String,
+    pub params: Vec<Param>,
+    pub vars: Vec<Local>,
+    pub body: Vec<Stmt>,
+}
+
+#[derive(Clone, Debug)]
 pub struct Program {
     pub funcs: Vec<FuncDef>,
+    pub fbs: Vec<FbDef>,
+    /// FB instance variables of the PROGRAM: (variable, FB type)
+    pub insts: Vec<(String, String)>,
     pub decls: Vec<VarDecl>,
     pub body: Vec<Stmt>,
 }
@@ -338,6 +353,7 @@ pub fn expr_src(e: &Expr, min: u8) -> String {
                 text
             }
         }
+        Expr::Fld(c, f) => format!("{c}.{f}"),
         Expr::Call(f, args) => {
             let parts: Vec<String> = args
                 .iter()
@@ -447,7 +463,35 @@ fn stmt_src(out: &mut String, s: &Stmt, ind: usize) {
         Stmt::ExprStmt(e) => {
             let _ = writeln!(out, "{pad}{};", expr_src(e, 0));
         }
+        Stmt::FbCall(c, args) => {
+            let _ = writeln!(out, "{pad}{};", expr_src(&Expr::Call(c.clone(), args.clone()), 0));
+        }
     }
+}
+
+fn fb_src(f: &FbDef) -> String {
+    let mut s = format!("FUNCTION_BLOCK {}\n", f.name);
+    for (dir, kw) in [(Dir::In, "VAR_INPUT"), (Dir::Out, "VAR_OUTPUT"), (Dir::InOut, "VAR_IN_OUT")] {
+        let ps: Vec<&Param> = f.params.iter().filter(|p| p.dir == dir).collect();
+        if ps.is_empty() {
+            continue;
+        }
+        let _ = writeln!(s, "{kw}");
+        for p in ps {
+            let _ = writeln!(s, "  {} : {}{};", p.name, p.ty.name(), init_src(&p.default));
+        }
+        s.push_str("END_VAR\n");
+    }
+    if !f.vars.is_empty() {
+        s.push_str("VAR\n");
+        for l in &f.vars {
+            let _ = writeln!(s, "  {} : {}{};", l.name, l.ty.name(), init_src(&l.init));
+        }
+        s.push_str("END_VAR\n");
+    }
+    block_src(&mut s, &f.body, 0);
+    s.push_str("END_FUNCTION_BLOCK\n\n");
+    s
 }
 
 fn init_src(e: &Option<Expr>) -> String {
@@ -487,6 +531,9 @@ pub fn program_src(p: &Program) -> String {
     for f in &p.funcs {
         s.push_str(&func_src(f));
     }
+    for f in &p.fbs {
+        s.push_str(&fb_src(f));
+    }
     s.push_str("PROGRAM P\nVAR\n");
     for d in &p.decls {
         if d.has_init {
@@ -504,6 +551,9 @@ pub fn program_src(p: &Program) -> String {
         } else {
             let _ = writeln!(s, "  {} : {};", d.name, d.ty.name());
         }
+    }
+    for (c, t) in &p.insts {
+        let _ = writeln!(s, "  {c} : {t};");
     }
     s.push_str("END_VAR\n");
     block_src(&mut s, &p.body, 0);
@@ -532,6 +582,7 @@ pub fn expr_sx(e: &Expr) -> String {
             expr_sx(inner)
         ),
         Expr::Bin(op, l, r) => format!("( b {} {} {} )", op.word(), expr_sx(l), expr_sx(r)),
+        Expr::Fld(c, f) => format!("( fld {c} {f} )"),
         Expr::Call(f, args) => {
             let mut a = String::from("(");
             for x in args {
@@ -630,7 +681,22 @@ fn stmt_sx(s: &Stmt) -> String {
         Stmt::Return => "( ret )".into(),
         Stmt::ReturnVal(e) => format!("( retv {} )", expr_sx(e)),
         Stmt::ExprStmt(e) => format!("( expr {} )", expr_sx(e)),
+        Stmt::FbCall(c, args) => {
+            // same argument encoding as a function call
+            let call = expr_sx(&Expr::Call(c.clone(), args.clone()));
+            // "( c NAME ARGS )" -> "( fbcall NAME ARGS )"
+            format!("( fbcall{}", &call[3..])
+        }
     }
+}
+
+/// `fb <name> ( params ) ( vars ) <body>`
+pub fn fb_sx(f: &FbDef) -> String {
+    let as_func = FuncDef { name: f.name.clone(), ret: Ty::Bool, params: f.params.clone(), locals: f.vars.clone(), body: f.body.clone() };
+    let line = func_sx(&as_func);
+    // "func NAME BOOL (..." -> "fb NAME (..."
+    let rest = line.splitn(4, ' ').nth(3).unwrap_or("").to_string();
+    format!("fb {} {rest}", f.name)
 }
 
 // ------------------------------------------------------------------------------------------
@@ -668,6 +734,9 @@ pub struct Gen<'a> {
     /// stage S4: FUNCTIONs that may be called from here, and variables that may only be read
     /// (VAR_INPUT parameters inside a function body)
     funcs: Vec<FuncDef>,
+    /// stage S5: FB types and the PROGRAM's instance variables (PROGRAM body only)
+    fbs: Vec<FbDef>,
+    insts: Vec<(String, String)>,
     readonly: Vec<String>,
     /// inside a FUNCTION body: its return type (a bare `RETURN;` is rejected there)
     func_ret: Option<Ty>,
@@ -712,7 +781,7 @@ impl<'a> Gen<'a> {
             sabotaged: None,
             restricted: Vec::new(),
             stmt_budget: 0,
-            funcs: Vec::new(),
+            funcs: Vec::new(), fbs: Vec::new(), insts: Vec::new(),
             readonly: Vec::new(),
             func_ret: None,
         }
@@ -899,6 +968,9 @@ impl<'a> Gen<'a> {
         if let Some(c) = self.maybe_call(Ty::Int(k)) {
             return c;
         }
+        if let Some(c) = self.maybe_fld(Ty::Int(k)) {
+            return c;
+        }
         let exact = self.int_vars(&[k]);
         if depth == 0 || self.rng.chance(1, 4) {
             if !exact.is_empty() && self.rng.chance(3, 4) {
@@ -959,6 +1031,9 @@ impl<'a> Gen<'a> {
             return Expr::Lit(None, 1);
         }
         if let Some(c) = self.maybe_call(Ty::Bool) {
+            return c;
+        }
+        if let Some(c) = self.maybe_fld(Ty::Bool) {
             return c;
         }
         let bvars = self.bool_vars();
@@ -1101,6 +1176,9 @@ impl<'a> Gen<'a> {
     /// SINT/INT, no bare literal unless the target is DINT.
     fn gen_strict_int(&mut self, k: IKind, depth: u32) -> Expr {
         if let Some(c) = self.maybe_call(Ty::Int(k)) {
+            return c;
+        }
+        if let Some(c) = self.maybe_fld(Ty::Int(k)) {
             return c;
         }
         let exact = self.int_vars(&[k]);
@@ -1435,6 +1513,12 @@ impl<'a> Gen<'a> {
             // something after it, so that skipping/leaving is observable
             out.push(self.gen_assign());
             return;
+        }
+        if !self.insts.is_empty() && self.rng.chance(1, 6) {
+            if let Some(st) = self.gen_fb_call() {
+                out.push(st);
+                return;
+            }
         }
         if !self.funcs.is_empty() && self.rng.chance(1, 12) {
             let fi = self.rng.below(self.funcs.len() as u64) as usize;
@@ -1838,6 +1922,227 @@ impl<'a> Gen<'a> {
         FuncDef { name, ret, params, locals, body }
     }
 
+    /// Stage S5: a FUNCTION_BLOCK with state; its body may call the given functions.
+    fn gen_fb(&mut self, idx: usize, kinds: &[IKind], funcs: &[FuncDef]) -> FbDef {
+        let name = format!("FB{idx}");
+        let pick_ty = |rng: &mut Rng| -> Ty {
+            if rng.chance(1, 6) {
+                Ty::Bool
+            } else {
+                Ty::Int(*rng.pick(kinds))
+            }
+        };
+        let profile = self.profile;
+        let lit_for = |rng: &mut Rng, ty: Ty| -> Expr {
+            match ty {
+                Ty::Bool => Expr::BLit(rng.bool()),
+                Ty::Int(k) => {
+                    let v = small(rng, k);
+                    if profile == Profile::Strict || rng.chance(1, 3) {
+                        Expr::Lit(Some(k), v)
+                    } else if v < 0 {
+                        Expr::Un(UnOp::Neg, Box::new(Expr::Lit(None, -v)))
+                    } else {
+                        Expr::Lit(None, v)
+                    }
+                }
+            }
+        };
+        let mut params = Vec::new();
+        for i in 0..1 + self.rng.below(3) as usize {
+            let ty = pick_ty(self.rng);
+            let default = if self.rng.chance(1, 3) { Some(lit_for(self.rng, ty)) } else { None };
+            params.push(Param { name: format!("in{i}"), ty, dir: Dir::In, default });
+        }
+        for i in 0..1 + self.rng.below(2) as usize {
+            params.push(Param { name: format!("out{i}"), ty: pick_ty(self.rng), dir: Dir::Out, default: None });
+        }
+        if self.rng.chance(1, 4) {
+            params.push(Param { name: "io0".into(), ty: pick_ty(self.rng), dir: Dir::InOut, default: None });
+        }
+        let mut vars = Vec::new();
+        for i in 0..self.rng.below(3) as usize {
+            let ty = pick_ty(self.rng);
+            let init = if self.rng.chance(1, 2) { Some(lit_for(self.rng, ty)) } else { None };
+            vars.push(Local { name: format!("st{i}"), ty, init });
+        }
+        let mut decls: Vec<VarDecl> = Vec::new();
+        let mut readonly = Vec::new();
+        for p in &params {
+            decls.push(VarDecl { name: p.name.clone(), ty: p.ty, init: 0, typed_init: false, has_init: false });
+            if p.dir == Dir::In {
+                readonly.push(p.name.clone());
+            }
+        }
+        for l in &vars {
+            decls.push(VarDecl { name: l.name.clone(), ty: l.ty, init: 0, typed_init: false, has_init: false });
+        }
+        let known = decls.len();
+        let (body, extra) = {
+            let mut sub = Gen::new(self.rng, profile, false);
+            sub.decls = decls;
+            sub.readonly = readonly;
+            sub.funcs = funcs.to_vec();
+            sub.stmt_budget = 3 + sub.rng.below(6) as i32;
+            let mut body = Vec::new();
+            let top = 2 + sub.rng.below(3);
+            for _ in 0..top {
+                sub.stmt_budget -= 1;
+                sub.gen_stmt(2, false, &mut body);
+            }
+            let extra: Vec<VarDecl> = sub.decls[known..].to_vec();
+            (body, extra)
+        };
+        for d in extra {
+            vars.push(Local { name: d.name, ty: d.ty, init: None });
+        }
+        FbDef { name, params, vars, body }
+    }
+
+    /// `instance.member` of the wanted type (an input or an output of one of the PROGRAM's instances).
+    fn maybe_fld(&mut self, ty: Ty) -> Option<Expr> {
+        if self.insts.is_empty() || !self.rng.chance(1, 6) {
+            return None;
+        }
+        let mut cands = Vec::new();
+        for (c, t) in &self.insts {
+            if let Some(fb) = self.fbs.iter().find(|f| &f.name == t) {
+                for p in &fb.params {
+                    if p.ty == ty && p.dir != Dir::InOut {
+                        cands.push((c.clone(), p.name.clone()));
+                    }
+                }
+            }
+        }
+        if cands.is_empty() {
+            return None;
+        }
+        let (c, f) = self.rng.pick(&cands).clone();
+        if self.sab("fld-unknown-member") {
+            return Some(Expr::Fld(c, "nomember".into()));
+        }
+        Some(Expr::Fld(c, f))
+    }
+
+    /// `instance(args);`
+    fn gen_fb_call(&mut self) -> Option<Stmt> {
+        if self.insts.is_empty() {
+            return None;
+        }
+        let (c, t) = self.rng.pick(&self.insts).clone();
+        let fb = self.fbs.iter().find(|f| f.name == t)?.clone();
+        let mut named = self.rng.chance(4, 5);
+        let mut used: Vec<String> = Vec::new();
+        let mut plan: Vec<Option<Expr>> = Vec::new();
+        for p in &fb.params {
+            match p.dir {
+                Dir::In => plan.push(None),
+                Dir::Out => {
+                    let v = self.bindable_var(p.ty, false, &used);
+                    if let Some(v) = &v {
+                        used.push(v.clone());
+                    } else {
+                        named = true;
+                    }
+                    plan.push(v.map(Expr::Var));
+                }
+                Dir::InOut => {
+                    let v = self.bindable_var(p.ty, true, &used)?;
+                    used.push(v.clone());
+                    plan.push(Some(Expr::Var(v)));
+                }
+            }
+        }
+        let mut args: Vec<Arg> = Vec::new();
+        for (p, planned) in fb.params.iter().zip(plan.into_iter()) {
+            let pname = if named { Some(p.name.clone()) } else { None };
+            match p.dir {
+                Dir::In => {
+                    if named && self.rng.chance(1, 4) {
+                        continue;
+                    }
+                    let e = self.arg_value(p.ty);
+                    args.push(Arg { name: pname, arrow: false, e });
+                }
+                Dir::Out => {
+                    let Some(e) = planned else { continue };
+                    if named && self.rng.chance(1, 2) {
+                        continue;
+                    }
+                    args.push(Arg { name: pname, arrow: named, e });
+                }
+                Dir::InOut => {
+                    let Some(e) = planned else { continue };
+                    args.push(Arg { name: pname, arrow: false, e });
+                }
+            }
+        }
+        if args.is_empty() && !self.rng.chance(1, 10) {
+            // `inst();` is the recorded finding C01-call-empty-args: keep it rare
+            let p = fb.params.iter().find(|p| p.dir == Dir::In)?.clone();
+            let e = self.arg_value(p.ty);
+            args.push(Arg { name: Some(p.name), arrow: false, e });
+        }
+        let mut inst = c;
+        if self.sab("fb-unknown-instance") {
+            inst = "nofb".into();
+        }
+        Some(Stmt::FbCall(inst, args))
+    }
+
+    /// Stage S5 program: FUNCTION_BLOCKs with state, instances in the PROGRAM, optionally FUNCTIONs.
+    pub fn gen_program_s5(mut self) -> (Program, Option<&'static str>) {
+        self.gen_decls();
+        let kinds: Vec<IKind> = {
+            let mut ks: Vec<IKind> = Vec::new();
+            for d in &self.decls {
+                if let Ty::Int(k) = d.ty {
+                    if !ks.contains(&k) {
+                        ks.push(k);
+                    }
+                }
+            }
+            if ks.is_empty() {
+                ks.push(IKind::DInt);
+            }
+            ks
+        };
+        let mut funcs: Vec<FuncDef> = Vec::new();
+        if self.rng.chance(1, 3) {
+            let f = self.gen_function(0, &kinds, &[]);
+            funcs.push(f);
+        }
+        let nfb = 1 + self.rng.below(2) as usize;
+        let mut fbs = Vec::new();
+        for i in 0..nfb {
+            let fb = self.gen_fb(i, &kinds, &funcs.clone());
+            fbs.push(fb);
+        }
+        let mut insts = Vec::new();
+        for (i, fb) in fbs.iter().enumerate() {
+            for j in 0..1 + self.rng.below(2) {
+                insts.push((format!("c{i}{j}"), fb.name.clone()));
+            }
+        }
+        self.funcs = funcs.clone();
+        self.fbs = fbs.clone();
+        self.insts = insts.clone();
+        self.stmt_budget = 5 + self.rng.below(10) as i32;
+        let mut body = Vec::new();
+        for _ in 0..insts.len() {
+            if let Some(s) = self.gen_fb_call() {
+                body.push(s);
+            }
+        }
+        let top = 2 + self.rng.below(4);
+        for _ in 0..top {
+            self.stmt_budget -= 1;
+            self.gen_stmt(3, false, &mut body);
+        }
+        let sabotaged = self.sabotaged;
+        (Program { funcs, fbs, insts, decls: self.decls, body }, sabotaged)
+    }
+
     /// Stage S4 program: one to three FUNCTIONs and a PROGRAM body that calls them.
     pub fn gen_program_s4(mut self) -> (Program, Option<&'static str>) {
         self.gen_decls();
@@ -1881,7 +2186,7 @@ impl<'a> Gen<'a> {
             self.gen_stmt(3, false, &mut body);
         }
         let sabotaged = self.sabotaged;
-        (Program { funcs, decls: self.decls, body }, sabotaged)
+        (Program { funcs, fbs: Vec::new(), insts: Vec::new(), decls: self.decls, body }, sabotaged)
     }
 
     pub fn gen_program(mut self) -> (Program, Option<&'static str>) {
@@ -1894,7 +2199,7 @@ impl<'a> Gen<'a> {
             self.gen_stmt(3, false, &mut body);
         }
         let sabotaged = self.sabotaged;
-        (Program { funcs: Vec::new(), decls: self.decls, body }, sabotaged)
+        (Program { funcs: Vec::new(), fbs: Vec::new(), insts: Vec::new(), decls: self.decls, body }, sabotaged)
     }
 }
 
@@ -1947,8 +2252,21 @@ pub fn dump(h: &TestHarness) -> String {
     let mut s = format!("frames={}", storage.frames().len());
     if let Some(Value::Instance(id)) = storage.get_global("P") {
         if let Some(inst) = storage.get_instance(*id) {
+            let mut nested = Vec::new();
             for (name, value) in inst.variables.iter() {
-                let _ = write!(s, " {name}={}", show_value(value));
+                if let Value::Instance(sub) = value {
+                    nested.push((name.clone(), *sub));
+                } else {
+                    let _ = write!(s, " {name}={}", show_value(value));
+                }
+            }
+            // stage S5: the variables of every FB instance held by the PROGRAM, as `inst.var`
+            for (name, sub) in nested {
+                if let Some(fb) = storage.get_instance(sub) {
+                    for (vn, value) in fb.variables.iter() {
+                        let _ = write!(s, " {name}.{vn}={}", show_value(value));
+                    }
+                }
             }
         }
     }
@@ -2055,6 +2373,12 @@ pub fn emit_case(out: &mut Out, n: u64, prog: &Program, tags: &str, inputs: Vec<
     }
     for f in &prog.funcs {
         out.line(func_sx(f));
+    }
+    for f in &prog.fbs {
+        out.line(fb_sx(f));
+    }
+    for (c, t) in &prog.insts {
+        out.line(format!("inst {c} {t}"));
     }
     out.line(format!("body {}", block_sx(&prog.body)));
     out.line(format!("src {}", hex(source.as_bytes())));
@@ -2164,7 +2488,7 @@ pub fn witnesses() -> Vec<(&'static str, Program)> {
         (
             "drift-int-literal",
             Program {
-                funcs: Vec::new(),
+                funcs: Vec::new(), fbs: Vec::new(), insts: Vec::new(),
                 decls: vec![decl("c", int(Int), 32766)],
                 body: vec![asg("c", bin(BinOp::Add, v("c"), lit(1)))],
             },
@@ -2172,7 +2496,7 @@ pub fn witnesses() -> Vec<(&'static str, Program)> {
         (
             "mixed-sign-compare",
             Program {
-                funcs: Vec::new(),
+                funcs: Vec::new(), fbs: Vec::new(), insts: Vec::new(),
                 decls: vec![decl("i", int(Int), -1), decl("u", int(UInt), 3), decl("b", Ty::Bool, 0)],
                 body: vec![asg("b", bin(BinOp::Lt, v("i"), v("u")))],
             },
@@ -2180,7 +2504,7 @@ pub fn witnesses() -> Vec<(&'static str, Program)> {
         (
             "mixed-sign-arith",
             Program {
-                funcs: Vec::new(),
+                funcs: Vec::new(), fbs: Vec::new(), insts: Vec::new(),
                 decls: vec![decl("u", int(UInt), 3)],
                 body: vec![asg("u", bin(BinOp::Add, v("u"), lit(-1)))],
             },
@@ -2188,7 +2512,7 @@ pub fn witnesses() -> Vec<(&'static str, Program)> {
         (
             "neg-unsigned",
             Program {
-                funcs: Vec::new(),
+                funcs: Vec::new(), fbs: Vec::new(), insts: Vec::new(),
                 decls: vec![decl("u", int(UInt), 3), decl("w", int(UInt), 0)],
                 body: vec![asg("w", neg(v("u")))],
             },
@@ -2196,7 +2520,7 @@ pub fn witnesses() -> Vec<(&'static str, Program)> {
         (
             "return-in-program",
             Program {
-                funcs: Vec::new(),
+                funcs: Vec::new(), fbs: Vec::new(), insts: Vec::new(),
                 decls: vec![decl("x", int(DInt), 0)],
                 body: vec![asg("x", lit(1)), Stmt::Return, asg("x", lit(2))],
             },
@@ -2204,7 +2528,7 @@ pub fn witnesses() -> Vec<(&'static str, Program)> {
         (
             "pow-negative-exponent",
             Program {
-                funcs: Vec::new(),
+                funcs: Vec::new(), fbs: Vec::new(), insts: Vec::new(),
                 decls: vec![decl("x", int(DInt), 2), decl("y", int(DInt), -1)],
                 body: vec![asg("x", bin(BinOp::Pow, v("x"), v("y")))],
             },
@@ -2212,7 +2536,7 @@ pub fn witnesses() -> Vec<(&'static str, Program)> {
         (
             "for-unsigned-negative-step",
             Program {
-                funcs: Vec::new(),
+                funcs: Vec::new(), fbs: Vec::new(), insts: Vec::new(),
                 decls: vec![decl("u", int(UInt), 0), decl("n", int(DInt), 0)],
                 body: vec![Stmt::For(
                     "u".into(),
@@ -2226,7 +2550,7 @@ pub fn witnesses() -> Vec<(&'static str, Program)> {
         (
             "for-undeclared-control",
             Program {
-                funcs: Vec::new(),
+                funcs: Vec::new(), fbs: Vec::new(), insts: Vec::new(),
                 decls: vec![decl("n", int(DInt), 0)],
                 body: vec![Stmt::For(
                     "zz".into(),
@@ -2240,7 +2564,7 @@ pub fn witnesses() -> Vec<(&'static str, Program)> {
         (
             "case-else-unchecked-store",
             Program {
-                funcs: Vec::new(),
+                funcs: Vec::new(), fbs: Vec::new(), insts: Vec::new(),
                 decls: vec![decl("d", int(DInt), 0)],
                 body: vec![Stmt::Case(
                     v("d"),
@@ -2252,7 +2576,7 @@ pub fn witnesses() -> Vec<(&'static str, Program)> {
         (
             "case-else-unchecked-condition",
             Program {
-                funcs: Vec::new(),
+                funcs: Vec::new(), fbs: Vec::new(), insts: Vec::new(),
                 decls: vec![decl("d", int(DInt), 0)],
                 body: vec![Stmt::Case(
                     v("d"),
@@ -2264,7 +2588,7 @@ pub fn witnesses() -> Vec<(&'static str, Program)> {
         (
             "for-ulint-cast",
             Program {
-                funcs: Vec::new(),
+                funcs: Vec::new(), fbs: Vec::new(), insts: Vec::new(),
                 decls: vec![decl("a", int(ULInt), i64::MAX as i128), decl("i", int(ULInt), 0), decl("n", int(DInt), 0)],
                 body: vec![
                     asg("a", bin(BinOp::Add, v("a"), tl(ULInt, 10))),
@@ -2281,7 +2605,7 @@ pub fn witnesses() -> Vec<(&'static str, Program)> {
         (
             "drift-widening-assignment",
             Program {
-                funcs: Vec::new(),
+                funcs: Vec::new(), fbs: Vec::new(), insts: Vec::new(),
                 decls: vec![decl("d", int(DInt), 0), decl("s", int(SInt), 3)],
                 body: vec![asg("d", v("s"))],
             },
@@ -2289,6 +2613,8 @@ pub fn witnesses() -> Vec<(&'static str, Program)> {
         (
             "call-empty-args",
             Program {
+                fbs: Vec::new(),
+                insts: Vec::new(),
                 funcs: vec![FuncDef {
                     name: "F0".into(),
                     ret: int(DInt),
@@ -2303,6 +2629,8 @@ pub fn witnesses() -> Vec<(&'static str, Program)> {
         (
             "drift-output-writeback",
             Program {
+                fbs: Vec::new(),
+                insts: Vec::new(),
                 funcs: vec![FuncDef {
                     name: "F0".into(),
                     ret: int(DInt),
@@ -2329,7 +2657,7 @@ pub fn witnesses() -> Vec<(&'static str, Program)> {
         (
             "drift-literal-out-of-range",
             Program {
-                funcs: Vec::new(),
+                funcs: Vec::new(), fbs: Vec::new(), insts: Vec::new(),
                 decls: vec![decl("s", int(SInt), 0), decl("u", int(UInt), 0)],
                 body: vec![asg("s", lit(1000)), asg("u", lit(-5))],
             },
@@ -2359,6 +2687,18 @@ pub fn raw_witnesses() -> Vec<(&'static str, &'static str)> {
         (
             "mixed-positional-formal-call",
             "FUNCTION K : INT\nVAR_INPUT\n  a : INT; b : INT;\nEND_VAR\nK := a * INT#10 + b;\nEND_FUNCTION\n\nPROGRAM P\nVAR\n  r : INT;\nEND_VAR\nr := K(INT#1, b := INT#2);\nEND_PROGRAM\n",
+        ),
+        (
+            "fb-omitted-input-reset",
+            "FUNCTION_BLOCK Acc\nVAR_INPUT\n  x : INT := 5;\nEND_VAR\nVAR_OUTPUT\n  o : INT;\nEND_VAR\no := x;\nEND_FUNCTION_BLOCK\n\nPROGRAM P\nVAR\n  a : Acc; r1 : INT; r2 : INT;\nEND_VAR\na(x := INT#200, o => r1);\na(o => r2);\nEND_PROGRAM\n",
+        ),
+        (
+            "fb-input-default-not-applied",
+            "FUNCTION_BLOCK Acc\nVAR_INPUT\n  x : INT := 5;\nEND_VAR\nVAR_OUTPUT\n  o : INT;\nEND_VAR\no := x;\nEND_FUNCTION_BLOCK\n\nPROGRAM P\nVAR\n  a : Acc; r0 : INT := INT#-1;\nEND_VAR\nIF r0 = INT#-1 THEN\n  r0 := a.x;\nEND_IF;\nEND_PROGRAM\n",
+        ),
+        (
+            "fb-call-without-arguments",
+            "FUNCTION_BLOCK Acc\nVAR_INPUT\n  x : INT := 5;\nEND_VAR\nVAR_OUTPUT\n  o : INT;\nEND_VAR\no := x;\nEND_FUNCTION_BLOCK\n\nPROGRAM P\nVAR\n  a : Acc; r : INT;\nEND_VAR\na();\nr := a.o;\nEND_PROGRAM\n",
         ),
         (
             "return-variable-case",
@@ -2431,7 +2771,7 @@ pub fn matrix_programs() -> Vec<(String, Program)> {
         for &t2 in &types {
             out.push((
                 format!("assign-{}-{}", t1.name(), t2.name()),
-                Program { funcs: Vec::new(), decls: vec![mk("x", t1, true), mk("y", t2, false)], body: vec![asg("x", v("y"))] },
+                Program { funcs: Vec::new(), fbs: Vec::new(), insts: Vec::new(), decls: vec![mk("x", t1, true), mk("y", t2, false)], body: vec![asg("x", v("y"))] },
             ));
         }
     }
@@ -2446,7 +2786,7 @@ pub fn matrix_programs() -> Vec<(String, Program)> {
                 out.push((
                     format!("bin-{opname}-{}-{}", t1.name(), t2.name()),
                     Program {
-                        funcs: Vec::new(),
+                        funcs: Vec::new(), fbs: Vec::new(), insts: Vec::new(),
                         decls: vec![mk("l", t1, false), mk("r", t2, true), mk("z", target, true)],
                         body: vec![asg("z", bin(op, v("l"), v("r")))],
                     },
@@ -2457,12 +2797,12 @@ pub fn matrix_programs() -> Vec<(String, Program)> {
     for &t1 in &types {
         out.push((
             format!("neg-{}", t1.name()),
-            Program { funcs: Vec::new(), decls: vec![mk("l", t1, true), mk("z", t1, true)], body: vec![asg("z", neg(v("l")))] },
+            Program { funcs: Vec::new(), fbs: Vec::new(), insts: Vec::new(), decls: vec![mk("l", t1, true), mk("z", t1, true)], body: vec![asg("z", neg(v("l")))] },
         ));
         out.push((
             format!("not-{}", t1.name()),
             Program {
-                funcs: Vec::new(),
+                funcs: Vec::new(), fbs: Vec::new(), insts: Vec::new(),
                 decls: vec![mk("l", t1, true), mk("z", Ty::Bool, true)],
                 body: vec![asg("z", Expr::Un(UnOp::Not, Box::new(v("l"))))],
             },
@@ -2473,7 +2813,7 @@ pub fn matrix_programs() -> Vec<(String, Program)> {
             out.push((
                 format!("for-{}-{}", t1.name(), t2.name()),
                 Program {
-                    funcs: Vec::new(),
+                    funcs: Vec::new(), fbs: Vec::new(), insts: Vec::new(),
                     decls: vec![
                         mk("c", t1, true),
                         VarDecl { name: "lo".into(), ty: t2, init: 1, typed_init: false, has_init: true },
@@ -2496,7 +2836,7 @@ pub fn matrix_programs() -> Vec<(String, Program)> {
             out.push((
                 format!("case-{}-{}", t1.name(), k2.name()),
                 Program {
-                    funcs: Vec::new(),
+                    funcs: Vec::new(), fbs: Vec::new(), insts: Vec::new(),
                     decls: vec![mk("s", t1, true), mk("n", Ty::Int(IKind::DInt), true)],
                     body: vec![Stmt::Case(
                         v("s"),
@@ -2562,17 +2902,22 @@ pub fn run_focus(args: &Args, focus: Focus) -> i32 {
         }
         let mut rng = Rng::for_case(args.seed, n);
         let (profile, sabotage) = pick_profile(&mut rng, focus);
-        let s4 = rng.chance(35, 100);
+        let stage_roll = rng.below(100);
+        let s4 = stage_roll < 25;
+        let s5 = (25..45).contains(&stage_roll);
         let (prog, sabotaged) = if s4 {
             Gen::new(&mut rng, profile, sabotage).gen_program_s4()
+        } else if s5 {
+            Gen::new(&mut rng, profile, sabotage).gen_program_s5()
         } else {
             Gen::new(&mut rng, profile, sabotage).gen_program()
         };
+        let stage = if s4 { "s4" } else if s5 { "s5" } else { "s2" };
         let rate = if focus == Focus::C03 { 25 } else { 12 };
         let inputs = gen_inputs(&mut rng, &prog, cycles, rate);
-        let mut tags = format!("profile-{} stage-{}", profile.name(), if s4 { "s4" } else { "s2" });
+        let mut tags = format!("profile-{} stage-{stage}", profile.name());
         out.count(&format!("profile-{}", profile.name()));
-        out.count(if s4 { "stage-s4" } else { "stage-s2" });
+        out.count(&format!("stage-{stage}"));
         if let Some(what) = sabotaged {
             let _ = write!(tags, " sabotaged sab-{what}");
             out.count(&format!("sab-{what}"));
